@@ -71,7 +71,7 @@ func (p Parser) HandleRawSQLQuery(sql string) (normalizedQuery, redactedQuery st
 	}
 
 	// redact and mask VALUES
-	Normalize(stmt, bv, ValueMask)
+	redactValues(stmt, bv)
 
 	return normalizedQ, String(stmt), outputStmt, nil
 }
